@@ -104,10 +104,15 @@ func (p *Processor) handleMessage(ctx context.Context, k *common.MessagePublicat
 		// unmarshal vaa
 		var existing *vaa.VAA
 		if existing, err = vaa.Unmarshal(vb); err != nil {
-			panic("failed to unmarshal VAA from db")
-		}
-
-		if k.Timestamp.Sub(existing.Timestamp) > settlementTime {
+			// A stored VAA that cannot be decoded (e.g. one with an empty payload, which
+			// Marshal accepts and Unmarshal rejects) must not take the whole node down:
+			// treat it like a missing entry and process the observation.
+			p.logger.Error("failed to unmarshal VAA from db",
+				zap.Stringer("emitter_chain", k.EmitterChain),
+				zap.Stringer("emitter_address", k.EmitterAddress),
+				zap.Uint64("sequence", k.Sequence),
+				zap.Error(err))
+		} else if k.Timestamp.Sub(existing.Timestamp) > settlementTime {
 			p.logger.Info("ignoring observation since we already have a quorum VAA for it",
 				zap.Stringer("emitter_chain", k.EmitterChain),
 				zap.Stringer("target_chain", k.TargetChain),
